@@ -402,9 +402,11 @@ func (e *Env) evalBinary(x *Expr) cval {
 	case "-", "*":
 		return cval{sx(x.Name, a.t, b.t), a.ct}
 	case "/":
-		return cval{sx("div", a.t, b.t), a.ct}
+		// Go's integer division truncates toward zero
+		return cval{Ite(sx(">=", a.t, "0"), sx("div", a.t, b.t), sx("-", sx("div", sx("-", a.t), b.t))), a.ct}
 	case "%":
-		return cval{sx("mod", a.t, b.t), a.ct}
+		q := Ite(sx(">=", a.t, "0"), sx("div", a.t, b.t), sx("-", sx("div", sx("-", a.t), b.t)))
+		return cval{sx("-", a.t, sx("*", b.t, q)), a.ct}
 	}
 	e.errorf("unknown operator %s", x.Name)
 	return cval{"true", B}
@@ -881,6 +883,14 @@ func (e *Env) evalCall(x *Expr) cval {
 			}
 			e.errorf("callres: no call of %s recorded", x.Args[0].Str)
 			return cval{"nilval", CT{Sort: "Val"}}
+		}
+	case "called":
+		// called("key"): the path executed the (first) call of key
+		if len(x.Args) == 1 && x.Args[0].Op == "lit-str" {
+			if r, ok := vc.callReach[x.Args[0].Str]; ok && r != "" {
+				return cval{r, B}
+			}
+			return cval{"false", B}
 		}
 	case "callarg":
 		// callarg("key", i [, "T"]): i-th argument of the first call of key in this function
